@@ -120,6 +120,7 @@ def run(ctx, rep):
     segment_start_congruence(ctx, rep, F, P)
     segment_alignment(ctx, rep, F, P)
     phdr_order(ctx, rep, F, P)
+    secondary_sections(ctx, rep, F, P)
     rep.assume("addresses, offsets, sizes: runtime quantities, not decided")
 
 
@@ -396,3 +397,88 @@ def phdr_order(ctx, rep, F, P):
         any(x[0] == "call" and (x[1] or "").split("::")[-1] == "order_key" for x in of.origins(comp[0]))
     rep.ob("phdr-order", "order_key-shape", ok2, "order_key = (definition.order_key(), start address)" if ok2 else
            "order_key does not return (type rank, the start address it was given)", ok_b.file, ok_b.line)
+
+
+def secondary_sections(ctx, rep, F, P):
+    """A linker-script output section with several input patterns (`.x : { *(.a) *(.b) }`), .init_array/.fini_array priorities, ... is laid out as a primary
+    section followed by *secondary* sections; one section header (the primary's) describes them all. Three genuine defects were repaired in /repo
+    (4a5c0be, 9d0e26d, 4990dc6): the primary did not inherit SHF_ALLOC from its secondaries (address 0 when the first pattern matched nothing), its start
+    was not aligned for its secondaries (sh_addr not a multiple of sh_addralign), and its size left out alignment padding (header shorter than the data)."""
+    import mireval
+    import decide
+    rep.rule("secondary-attributes", "propagate_section_attributes applies a section's attributes to the section itself and to its primary section (primary_output_section)")
+    rep.rule("secondary-alignment", "layout_section_parts aligns a section's first part to max(its own max alignment, the max alignment of the sections whose merge_target it is)")
+    rep.rule("merge-extent", "OutputRecordLayout::merge, evaluated from its MIR: for allocated records the merged extent reaches the end of the later record "
+             "(padding included), for non-allocated ones sizes add; the alignment is the maximum")
+    # (a)
+    cls = F.closures_of("libwild::layout::propagate_section_attributes")
+    applied = []
+    for c in cls:
+        cf = P.flow(c)
+        for bi, t in cf.calls():
+            if (callee_key(t["f"]) or "").endswith("SectionAttributes::apply") or (callee_key(t["f"]) or "").split("::")[-1] == "apply":
+                o = cf.origins(t["args"][-1])
+                applied.append("primary" if any(x[0] == "call" and (x[1] or "").endswith("primary_output_section") for x in o) else
+                               ("self" if all(x[0] == "param" for x in o) and o else "other"))
+    rep.ob("secondary-attributes", "both", "self" in applied and "primary" in applied,
+           f"attributes are applied to {sorted(applied)}" if "self" in applied and "primary" in applied else
+           f"attributes are applied to {sorted(applied)} only: a primary section whose own patterns matched nothing keeps empty flags (no SHF_ALLOC) although its secondaries hold allocated data",
+           "libwild/src/layout.rs", cls[0].line if cls else 0)
+    # (b)
+    b = F.body("libwild::layout::layout_section_parts")
+    if b is None:
+        rep.lost("secondary-alignment", "layout::layout_section_parts")
+    else:
+        flow = P.flow(b)
+        mt = [(bi, t) for bi, t in flow.calls() if (callee_key(t["f"]) or "").endswith("OutputSections::merge_target")]
+        pre_ok = False
+        for bi, t in mt:
+            # on the Some edge: a max_alignment of the secondary is folded into a per-primary slot
+            names = set()
+            r = P.cfg(b).reachable_from(t["to"]) if t.get("to") is not None else set()
+            for bj, tt in flow.calls():
+                if bj in r:
+                    names.add((callee_key(tt["f"]) or "").split("::")[-1])
+            pre_ok = pre_ok or {"max_alignment", "get_mut", "max"} <= names
+        rep.ob("secondary-alignment", "collect", pre_ok, "a pass over the output order records, per primary, the largest alignment among its secondaries", b.file, b.line)
+        used = False
+        for blk in b.blocks:
+            for st in blk["s"]:
+                if st["k"] == "assign" and st["rv"]["k"] == "agg" and st["rv"].get("closure"):
+                    for o in st["rv"]["ops"]:
+                        leaves = {(x[1] or "").split("::")[-1] for x in flow.deep_origins(o) if x[0] == "call"}
+                        if "max_alignment" in leaves and "max" in leaves and "get" in leaves:
+                            used = True
+        rep.ob("secondary-alignment", "used", used, "the alignment the part loop works with is max(own max_alignment, recorded secondary alignment)" if used else
+               "the part loop aligns with the section's own max alignment only: an output section whose later patterns need more alignment starts at an address that is not a "
+               "multiple of the sh_addralign its header reports", b.file, b.line)
+    # (c)
+    key = "libwild::layout::OutputRecordLayout::merge"
+    mb = F.body(key)
+    if mb is None:
+        rep.lost("merge-extent", key)
+    else:
+        cases = [
+            # (self, other, is_alloc) -> (mem_size, file_size, alignment exponent)
+            ((100, 10, 100, 10, 0), (128, 8, 128, 8, 6), 1, (36, 36, 6)),     # padded secondary
+            ((100, 10, 100, 10, 3), (110, 8, 110, 8, 0), 1, (18, 18, 3)),     # contiguous
+            ((100, 10, 100, 10, 0), (128, 8, 110, 0, 6), 1, (36, 10, 6)),     # NOBITS secondary
+            ((100, 10, 100, 10, 3), (128, 0, 128, 0, 6), 1, (10, 10, 3)),     # empty secondary changes nothing
+            ((0, 10, 500, 10, 0), (0, 8, 510, 8, 2), 0, (18, 18, 2)),         # non-allocated: sizes add (offsets are per section)
+        ]
+        bad = None
+        argc = mb.d["argc"]
+        try:
+            for (mo, ms, fo, fs, ae), (omo, oms, ofo, ofs, oae), alloc, want in cases:
+                me = {"file_size": fs, "mem_size": ms, "alignment": {"exponent": ae}, "file_offset": fo, "mem_offset": mo}
+                ot = {"file_size": ofs, "mem_size": oms, "alignment": {"exponent": oae}, "file_offset": ofo, "mem_offset": omo}
+                mireval.call(F, key, [me, ot, alloc][:argc])
+                got = (me["mem_size"], me["file_size"], me["alignment"]["exponent"])
+                if got != want and bad is None:
+                    bad = ((mo, ms, fo, fs), (omo, oms, ofo, ofs), alloc, got, want)
+        except (mireval.EvalError, mireval.Panic, KeyError, TypeError) as ex:
+            rep.ob("merge-extent", "evaluated", False, f"merge could not be tabulated: {type(ex).__name__}: {ex}", mb.file, mb.line)
+            return
+        rep.ob("merge-extent", "table", bad is None, f"{len(cases)} cases agree" if bad is None else
+               f"merging {bad[1]} (mem_offset, mem_size, file_offset, file_size) into {bad[0]} with is_alloc={bad[2]} gives (mem_size, file_size, align) = {bad[3]}, expected {bad[4]}: "
+               "the section header does not cover its last input section / its padding", mb.file, mb.line)
